@@ -326,8 +326,10 @@ func (p *hProfile) genIndexModel(t *rapid.T, view *hView, ns string) bson.D {
 		} else {
 			pv = p.cfg.Scalar().Draw(t, "pval")
 		}
-		cond := rapid.SampledFrom([]string{"eq", "$gte", "$exists", "$lt"}).Draw(t, "pcond")
+		cond := rapid.SampledFrom([]string{"eq", "$gte", "$exists", "$lt", "empty"}).Draw(t, "pcond")
 		switch cond {
+		case "empty":
+			m = append(m, bson.E{Key: "partial", Value: bson.D{}})
 		case "eq":
 			m = append(m, bson.E{Key: "partial", Value: bson.D{{Key: pk, Value: pv}}})
 		case "$exists":
@@ -478,6 +480,21 @@ func (p *hProfile) genStep(t *rapid.T, view *hView) bson.D {
 		add("update", upd)
 		add("upsert", rapid.IntRange(0, 3).Draw(t, "upsert") == 0)
 	case "replaceOne":
+		if ds := view.allDocs(ns); len(ds) > 0 && rapid.IntRange(0, 999).Draw(t, "samerepl")%8 == 3 {
+			// replace a stored document by itself (nothing changes, with or
+			// without upsert, with or without the _id in the replacement)
+			d := rapid.SampledFrom(ds).Draw(t, "srdoc")
+			add("filter", bson.D{{Key: "_id", Value: getD(d, "_id")}})
+			repl := bson.D{}
+			for _, e := range d {
+				if e.Key != "_id" || rapid.Bool().Draw(t, "srid") {
+					repl = append(repl, e)
+				}
+			}
+			add("repl", repl)
+			add("upsert", rapid.Bool().Draw(t, "srups"))
+			break
+		}
 		add("filter", p.genFilter(t, view, ns))
 		repl := p.docGen(t, p)
 		if rapid.IntRange(0, 5).Draw(t, "replid") == 0 {
